@@ -25,17 +25,46 @@ def leaf(t):
     return s
 
 
+def rows_of(t):
+    """term of type [[T; 3]; 3] -> list of 3 lists of 3 terms (handles symbolic matrices and in-place updates)"""
+    while isinstance(t, tuple) and t[0] in ("&", "deref"):
+        t = t[1]
+    if t[0] == "array" and len(t[1]) == 3:
+        return [elems_of(r) for r in t[1]]
+    if t[0] == "upd" and t[2][0] in ("i", "idx") and isinstance(t[2][1], tuple) and t[2][1][0] == "const":
+        rows = rows_of(t[1])
+        rows[int(t[2][1][1])] = elems_of(t[3])
+        return rows
+    if t[0] in ("field", "arg", "index"):
+        return [[("index", ("index", t, ("const", i)), ("const", j)) for j in range(3)] for i in range(3)]
+    raise ValueError("not a 3x3 matrix: %s" % show(t)[:80])
+
+
+def elems_of(t):
+    while isinstance(t, tuple) and t[0] in ("&", "deref"):
+        t = t[1]
+    if t[0] == "array" and len(t[1]) == 3:
+        return list(t[1])
+    if t[0] == "upd" and t[2][0] in ("i", "idx") and isinstance(t[2][1], tuple) and t[2][1][0] == "const":
+        e = elems_of(t[1])
+        e[int(t[2][1][1])] = t[3]
+        return e
+    if t[0] in ("field", "arg", "index"):
+        return [("index", t, ("const", j)) for j in range(3)]
+    raise ValueError("not a row of 3: %s" % show(t)[:80])
+
+
 def matrix_of(t):
     """ret term -> 3x3 list of R"""
     while isinstance(t, tuple) and t[0] in ("&", "deref"):
         t = t[1]
-    if t[0] == "upd":
+    if t[0] == "upd" and not (t[2][0] in ("i", "idx")):
         t = t[3]
     if t[0] == "adt" and t[1] == AT:
         t = t[3][0]
-    if t[0] != "array" or len(t[1]) != 3:
-        raise ValueError("not a 3x3 matrix: %s" % show(t)[:80])
-    return [[from_term(x, leaf) for x in row[1]] for row in t[1]]
+    if t[0] == "upd" and t[2] == ("f", "0"):
+        t = t[3]
+    return [[from_term(x, leaf) for x in row] for row in rows_of(t)]
 
 
 def rsubst(r, env):
@@ -85,12 +114,6 @@ def run(rep, tier):
         else:
             rep.bad("R13.1", "new", "new(a,b,xoff,d,e,yoff) does not build [[a,b,xoff],[d,e,yoff],[0,0,1]]", where=fn_new.loc())
         fn_c, pc = body("compose")
-        C = matrix_of(pc[0].ret)
-        Cl = [[rsubst_r(x, LAST) for x in row] for row in C]
-        if [x.is_const(c) for x, c in zip(Cl[2], (0, 0, 1))] == [True] * 3:
-            rep.ok("R13.1", "compose-preserves")
-        else:
-            rep.bad("R13.1", "compose-last-row", "compose does not preserve the last row [0,0,1]: %s" % [show_poly(x.n) for x in Cl[2]], where=fn_c.loc())
         fn_a, pa = body("apply")
         r = pa[0].ret
         ax = from_term(r[3][0], leaf)
@@ -101,17 +124,48 @@ def run(rep, tier):
             env = {"A%d%d" % (i, j): Mx[i][j] for i in range(3) for j in range(3)}
             env["a2.x"], env["a2.y"] = qx, qy
             return rsubst_r(ax, env), rsubst_r(ay, env)
-        Am = [[R(sym("A%d%d" % (i, j))) for j in range(3)] for i in range(3)]
-        Bm = [[R(sym("B%d%d" % (i, j))) for j in range(3)] for i in range(3)]
-        for k, v in LAST.items():
-            (Am if k[0] == "A" else Bm)[int(k[1])][int(k[2])] = v
-        lhs = apply_with(Cl, px, py)
-        mid = apply_with(Am, px, py)
-        rhs = apply_with(Bm, mid[0], mid[1])
-        if lhs[0].equals(rhs[0]) and lhs[1].equals(rhs[1]):
-            rep.ok("R13.2", "apply∘compose", sample="apply(compose(a,b),p).x = %s" % show_poly(lhs[0].n)[:160])
+        C = None
+        for p in pc:
+            # every path of compose (fast paths included) must satisfy the laws under its own path condition: equalities
+            # `entry == one()/zero()` that the path assumed are substituted on both sides
+            guard = dict(LAST)
+            for t, v in p.pc:
+                if t[0] == "cmp" and t[1] == "eq" and v == 1:
+                    for x, y in ((t[2], t[3]), (t[3], t[2])):
+                        if y[0] == "call" and y[1].endswith(("One::one", "Zero::zero")) and re.match(r"^[AB]\d\d$", leaf(x)):
+                            guard[leaf(x)] = R(P(1 if y[1].endswith("one") else 0))
+            Cp = matrix_of(p.ret)
+            if C is None or len(p.pc) == 0 or all(v == 0 for _, v in p.pc):
+                C = Cp      # the general path is the reference for the builders below
+            Cl = [[rsubst_r(x, guard) for x in row] for row in Cp]
+            tag = "" if len(pc) == 1 else "[%s]" % show_pc(p.pc)[:60]
+            if [x.is_const(c) for x, c in zip(Cl[2], (0, 0, 1))] == [True] * 3:
+                rep.ok("R13.1", "compose-preserves" + tag)
+            else:
+                rep.bad("R13.1", "compose-last-row", "compose does not preserve the last row [0,0,1]: %s" % [show_poly(x.n) for x in Cl[2]], where=fn_c.loc())
+            Am = [[rsubst_r(R(sym("A%d%d" % (i, j))), guard) for j in range(3)] for i in range(3)]
+            Bm = [[rsubst_r(R(sym("B%d%d" % (i, j))), guard) for j in range(3)] for i in range(3)]
+            lhs = apply_with(Cl, px, py)
+            mid = apply_with(Am, px, py)
+            rhs = apply_with(Bm, mid[0], mid[1])
+            if lhs[0].equals(rhs[0]) and lhs[1].equals(rhs[1]):
+                rep.ok("R13.2", "apply∘compose" + tag, sample="apply(compose(a,b),p).x = %s" % show_poly(lhs[0].n)[:160])
+            else:
+                rep.bad("R13.2", "apply∘compose", "on the path [%s] of compose, apply(compose(a,b), p) differs from apply(b, apply(a, p)): x-difference %s, y-difference %s" % (
+                    show_pc(p.pc)[:120], show_poly((lhs[0] - rhs[0]).n)[:160], show_poly((lhs[1] - rhs[1]).n)[:160]), where=fn_c.loc())
+        Cl = [[rsubst_r(x, LAST) for x in row] for row in C]
+        # compose_many: left fold of compose over the slice, starting from the identity, appended to self
+        fn_m = F.one(r"^%s::<\w+>::compose_many$" % AT, crates=("geo",))
+        from .c01 import opaque as _opaque
+        from ..symex import bare as _bare
+        pm = [p for p in _opaque(F).run(fn_m) if p.kind == "ret"]
+        rm = _bare(pm[0].ret) if len(pm) == 1 else ""
+        cl = [[_bare(q.ret) for q in _opaque(F).run(g) if q.kind == "ret"] for g in F.closures_of(fn_m)]
+        if re.match(r"^compose\(a1, fold\(iter\(a2\), default\(\), closure\[\]\)\)$", rm) and cl == [["compose(a2, a3)"]]:
+            rep.ok("R13.2", "compose_many=left-fold")
         else:
-            rep.bad("R13.2", "apply∘compose", "apply(compose(a,b), p) differs from apply(b, apply(a, p)): x-difference %s" % show_poly((lhs[0] - rhs[0]).n)[:200], where=fn_c.loc())
+            rep.bad("R13.2", "compose_many", "compose_many is %s with step %s; expected self.compose(&fold(transforms, identity, |acc, t| acc.compose(t))): "
+                    "a step t.compose(&acc) applies the chain in reverse order" % (rm[:100], cl), where=fn_m.loc())
     except (KeyError, Unanalysable, ValueError, IndexError) as e:
         rep.bad("R13.2", "unanalysable", str(e))
         return
